@@ -183,22 +183,23 @@ Print Assumptions resize_pinned_refuted.
    the matrix was last initialised ([segment] = current dimension and those features). Any carrier. *)
 Theorem agent_sigma_is_run : forall (T : Type) (zero one : T) (add sub mul div : T -> T -> T) (rr : bool)
   (l : T) (ly : layer) (ops : seq (@op T)),
-  List.forallb no_resize ops = true ->
+  List.forallb no_resize ops = true -> lam_clean ops = true ->
   sig (run zero one add sub mul div rr (init_params zero one div l ly) ops) =
-  sigma_run zero one add sub mul div l (segment ly ops).1 (segment ly ops).2.
+  sigma_run zero one add sub mul div (cur_lam l ops) (segment ly ops).1 (segment ly ops).2.
 Proof. exact @Proofs.agent_sigma_is_run. Qed.
 Print Assumptions agent_sigma_is_run.
 
 (* ... hence, over any real field, for every such history whose decisions hand in features of the current
    size: sigma_inv times (lambda I + sum of outer products of the features chosen since the last
    initialisation) is the identity, sigma_inv is symmetric, and every arm's bonus radicand is >= 0. *)
-Theorem agent_gram_inverse : forall (F : realFieldType) (lam : F), 0 < lam ->
-  forall (ly : layer) (ops : seq (@op F)) (rr : bool),
-  List.forallb no_resize ops = true -> feats_ok (layer_numel ly, [::]) ops ->
+Theorem agent_gram_inverse : forall (F : realFieldType) (lam : F)
+  (ly : layer) (ops : seq (@op F)) (rr : bool),
+  List.forallb no_resize ops = true -> lam_clean ops = true -> 0 < cur_lam lam ops ->
+  feats_ok (layer_numel ly, [::]) ops ->
   let n := (segment ly ops).1 in
   let vs := (segment ly ops).2 in
   let S := sig (run 0 1 +%R (@fsub F) *%R (@fdiv F) rr (init_params 0 1 (@fdiv F) lam ly) ops) in
-  [/\ mx_of n (Model.gram 0 +%R *%R lam n vs) *m mx_of n S = 1%:M,
+  [/\ mx_of n (Model.gram 0 +%R *%R (cur_lam lam ops) n vs) *m mx_of n S = 1%:M,
       (mx_of n S)^T = mx_of n S
     & forall g, size g = n -> 0 <= Model.quad 0 +%R *%R S g].
 Proof. exact Refine.agent_gram_inverse. Qed.
@@ -206,10 +207,24 @@ Print Assumptions agent_gram_inverse.
 
 (* non-vacuity: a history with two decisions, a mutation that resizes the layer, and one more decision *)
 Example agent_nonvacuous :
-  let ops : seq (@op rat) := [:: Act [:: 1; 0; 1]; Learn; Act [:: 0; 1; 1]; Clone; MutHook (lin 3); Reload; Act [:: 1; 1; 0; 1]] in
-  List.forallb no_resize ops = true /\ feats_ok (layer_numel (lin 2), [::]) ops /\
+  let ops : seq (@op rat) := [:: Act [:: 1; 0; 1]; Learn; Act [:: 0; 1; 1]; Clone; SetLam 2%:R; MutHook (lin 3); Reload; Act [:: 1; 1; 0; 1]] in
+  List.forallb no_resize ops = true /\ lam_clean ops = true /\ cur_lam (1 : rat) ops = 2%:R /\
+  feats_ok (layer_numel (lin 2), [::]) ops /\
   segment (lin 2) ops = (4%N, [:: [:: 1; 1; 0; 1]]).
 Proof. by []. Qed.
+
+(* an RL-hyperparameter mutation of lambda that is NOT followed by a re-initialisation (Mutations.mutation skipping the
+   hook for hyperparameter mutations) leaves the agent with lambda = 2 and the matrix of lambda = 1: (lambda I) * sigma_inv
+   is 2, not 1; with the hook (a MutHook op) the matrix is re-initialised with the new lambda (1/2) *)
+Theorem setlam_without_init_refuted :
+  let q := fun z => QArith_base.Qmake z BinNums.xH in
+  let s := List.fold_left Qstep [:: SetLam (q (BinNums.Zpos (BinNums.xO BinNums.xH)))] (Qinit (q (BinNums.Zpos BinNums.xH)) [:: (0%N, 1%N)]) in
+  lam s = q (BinNums.Zpos (BinNums.xO BinNums.xH)) /\
+  Qmatmul (@scal_id QArith_base.Q (q BinNums.Z0) 1 (lam s)) (sig s) = [:: [:: q (BinNums.Zpos (BinNums.xO BinNums.xH))]] /\
+  sig (List.fold_left Qstep [:: SetLam (q (BinNums.Zpos (BinNums.xO BinNums.xH))); MutHook [:: (0%N, 1%N)]] (Qinit (q (BinNums.Zpos BinNums.xH)) [:: (0%N, 1%N)]))
+    = [:: [:: QArith_base.Qmake (BinNums.Zpos BinNums.xH) (BinNums.xO BinNums.xH)]].
+Proof. exact setlam_without_init_witness. Qed.
+Print Assumptions setlam_without_init_refuted.
 
 (* ---- the instance the correspondence check EXECUTES (generic model over Bignums' BigQ, C19/Check.v) ----
    read through CoqEAL's proven interpretation bigQ2rat : bigQ -> rat (C19/Exec.v). These two theorems depend on
@@ -228,9 +243,9 @@ Proof. exact Exec.executed_gram_inverse. Qed.
 Print Assumptions executed_gram_inverse.
 
 Theorem executed_agent_sigma : forall (rr : bool) (lam : bigQ) (ly : layer) (ops : seq (@op bigQ)),
-  List.forallb no_resize ops = true ->
+  List.forallb no_resize ops = true -> lam_clean ops = true ->
   sig (List.fold_left (Bstep rr) ops (Binit lam ly)) =
-  sigma_run B0 B1 BigQ.add_norm BigQ.sub_norm BigQ.mul_norm BigQ.div_norm lam (segment ly ops).1 (segment ly ops).2.
+  sigma_run B0 B1 BigQ.add_norm BigQ.sub_norm BigQ.mul_norm BigQ.div_norm (cur_lam lam ops) (segment ly ops).1 (segment ly ops).2.
 Proof. exact Exec.executed_agent_sigma. Qed.
 Print Assumptions executed_agent_sigma.
 
